@@ -1,6 +1,7 @@
 //go:build verif
 
 // Contracts for the govc verifier (/verif). Comment-only; compiled only with -tags verif.
+// Vocabulary (phase, convFlag, wcOf, wfDoc, ...) is defined in /verif/specs/extractor.ghost.
 
 package extractor
 
@@ -12,3 +13,27 @@ package extractor
 
 //@ func (*ContentExtractor).ExtractTitle()
 //@   requires ce != nil && ce.Parser != nil && wfParser(ce.Parser) && ce.documentElement != nil
+
+//@ func (*ContentExtractor).createWebDocumentInfoFromPage(flags)
+//@   trusted
+//@   requires ce != nil && ce.Parser != nil && wfParser(ce.Parser) && ce.documentElement != nil
+//@   ensures result != nil && fresh(result) && phase(result) == 0 && convFlag(result) == flags
+//@   ensures ce.Parser == old(ce.Parser) && wfParser(ce.Parser) && ce.documentElement == old(ce.documentElement) && ce.TimingInfo == old(ce.TimingInfo)
+
+//@ func (*ContentExtractor).processDocument(doc)
+//@   trusted
+//@   requires ce != nil && doc != nil && phase(doc) == 0
+//@   ghostset phase(doc) = 1
+//@   ensures phase(doc) == 1 && result == wcOf(doc)
+//@   ensures wfDoc(doc) && nonTextNotContent(doc) && balancedTags(doc)
+//@   ensures ce.Parser == old(ce.Parser) && wfParser(ce.Parser) && ce.documentElement == old(ce.documentElement) && ce.TimingInfo == old(ce.TimingInfo)
+
+//@ func (*ContentExtractor).ExtractContent()
+//@   requires ce != nil && ce.TimingInfo != nil && ce.Parser != nil && wfParser(ce.Parser) && ce.documentElement != nil
+//@   ensures [C01] #document-not-nil result0 != nil
+//@   ensures [C08] #filters-in-order phase(result0) == 4
+//@   ensures [C09] #count-belongs-to-returned-document result1 == wcOf(result0)
+//@   ensures [C20] #first-pass-kept-iff-enough-words implies(wcOf(callres(createWebDocumentInfoFromPage, 0)) >= 500, result0 == callres(createWebDocumentInfoFromPage, 0))
+//@   ensures [C20] #fallback-ignores-markers implies(wcOf(callres(createWebDocumentInfoFromPage, 0)) < 500, result0 != callres(createWebDocumentInfoFromPage, 0) && convFlag(result0) == converter.Default)
+//@   ensures [C20] #first-pass-skips-unlikelies convFlag(callres(createWebDocumentInfoFromPage, 0)) == converter.SkipUnlikelies
+//@   ensures ce.Parser == old(ce.Parser) && wfParser(ce.Parser) && ce.documentElement == old(ce.documentElement) && ce.TimingInfo == old(ce.TimingInfo)
